@@ -1,0 +1,12 @@
+//go:build verif
+
+package nat
+
+import "github.com/cilium/ebpf"
+
+// SetSubscriberNATMapForVerif injects the subscriber_nat eBPF map the manager mirrors its
+// allocations into, exactly as Start() would after loading the collection (no program is
+// loaded or attached). Verification harness only.
+func (m *Manager) SetSubscriberNATMapForVerif(subscriberNAT *ebpf.Map) {
+	m.subscriberNAT = subscriberNAT
+}
